@@ -511,6 +511,11 @@ func h1steps(sp h1spec) []step {
 	}
 	if sp.Stall {
 		st = append(st, step{"32 KiB of the request body read by the peer, the producer has stalled", []string{"XWroteSome"}, func(r *h1run) error {
+			if r.spec.Expect { // the peer asks for the body: 100 Continue
+				if err := r.pc.write([]byte("HTTP/1.1 100 Continue\r\n\r\n")); err != nil {
+					return err
+				}
+			}
 			if err := r.pc.readBody(32 << 10); err != nil {
 				return err
 			}
